@@ -19,6 +19,8 @@ VARIABLE c
 \* ---- abstract syntax ------------------------------------------------------
 Num(v) == [op |-> "num", v |-> v, a |-> <<>>]         \* v: a numeral string
 Var(x) == [op |-> "var", v |-> x, a |-> <<>>]
+Str(x) == [op |-> "str", v |-> x, a |-> <<>>]         \* x: the quoted token, e.g. "'a,b'"
+\* a top-level comma list {{e1, e2}} is the node Call("list", <<e1, e2>>)
 Neg(t) == [op |-> "neg", v |-> "-", a |-> <<t>>]
 Bin(o, l, r) == [op |-> "bin", v |-> o, a |-> <<l, r>>]
 Call(f, args) == [op |-> "call", v |-> f, a |-> args]
@@ -41,6 +43,8 @@ Unparse(t, p, red) ==
     LET body ==
           CASE t.op = "num" -> <<t.v>>
             [] t.op = "var" -> <<"$" \o t.v>>
+            [] t.op = "str" -> <<t.v>>
+            [] t.op = "call" /\ t.v = "list" -> UnparseArgs(t.a, red)
             [] t.op = "neg" -> <<"-">> \o Unparse(t.a[1], 6, red)
             [] t.op = "call" -> <<t.v, "(">> \o UnparseArgs(t.a, red) \o <<")">>
             [] t.op = "bin" ->
@@ -61,9 +65,13 @@ Ok(t, i) == [ok |-> TRUE, t |-> t, i |-> i]
 Tok(ts, i) == IF i <= Len(ts) THEN ts[i] ELSE "<eof>"
 IsNumeral(s) == s \in {"0", "1", "2", "3", "7", "10", "0.5", "2.5", "0.25", "100", "30", "45", "90"}
 IsVar(s) == s \in {"$a", "$b"}
-FunNames == {"abs", "ceil", "floor", "fract", "sign", "sqrt", "min", "max", "clamp", "mix", "pow", "if", "not",
-             "eq", "lt", "sin", "cos", "and", "or", "sum", "count", "exp", "log"}
-
+IsStr(s) == s \in {"'a,b'", "'a b  c'", "'  a '", "','", "'-'", "'a'", "'b'", "'a.b.c'", "'.'"}
+Fixed1 == {"abs", "ceil", "floor", "fract", "sign", "sqrt", "log", "exp", "sin", "cos", "tan", "asin", "acos", "atan", "not"}
+Fixed2 == {"divmod", "pow", "randint", "eq", "ne", "lt", "le", "gt", "ge", "and", "or", "xor", "swap", "r2p", "p2r"}
+Fixed3 == {"clamp", "mix", "if"}
+Variadic == {"min", "max", "sum", "product", "mean", "select", "addv", "subv", "scalev", "head", "tail", "empty", "count", "in"}
+StrFuns == {"split", "splitw", "trim", "join"}
+FunNames == Fixed1 \cup Fixed2 \cup Fixed3 \cup Variadic \cup StrFuns
 RECURSIVE PLogical(_, _), PLogicalRest(_, _, _), PCmp(_, _), PTerm(_, _), PTermRest(_, _, _),
           PFactor(_, _), PFactorRest(_, _, _), PPrimary(_, _), PArgs(_, _, _)
 
@@ -71,6 +79,7 @@ PPrimary(ts, i) ==
     LET k == Tok(ts, i)
     IN IF IsNumeral(k) THEN Ok(Num(k), i + 1)
        ELSE IF IsVar(k) THEN Ok(Var(SubSeq(k, 2, Len(k))), i + 1)
+       ELSE IF IsStr(k) THEN Ok(Str(k), i + 1)
        ELSE IF k = "(" THEN
             LET r == PLogical(ts, i + 1)
             IN IF r.ok /\ Tok(ts, r.i) = ")" THEN Ok(r.t, r.i + 1) ELSE Fail
@@ -110,7 +119,11 @@ PLogicalRest(ts, l, i) ==
     THEN LET r == PCmp(ts, i + 1) IN IF r.ok THEN PLogicalRest(ts, Bin(Tok(ts, i), l, r.t), r.i) ELSE Fail
     ELSE Ok(l, i)
 
-Parse(ts) == LET r == PLogical(ts, 1) IN IF r.ok /\ r.i = Len(ts) + 1 THEN r ELSE Fail
+\* the whole expression is a comma list; a list of one is the element itself
+Parse(ts) == LET r == PArgs(ts, 1, <<>>)
+             IN IF r.ok /\ r.i = Len(ts) + 1
+                THEN (IF Len(r.t.a) = 1 THEN Ok(r.t.a[1], r.i) ELSE Ok(Call("list", r.t.a), r.i))
+                ELSE Fail
 
 \* ---- trees ---------------------------------------------------------------------
 Leaves == {Num("1"), Num("2"), Num("3"), Num("0.5"), Num("7"), Var("a")}
@@ -122,20 +135,43 @@ D2 == {Bin(o, l, r) : o \in Ops2, l \in D1, r \in D1} \cup {Neg(t) : t \in D1}
 \* Unparse adds the parentheses, Parse must give the tree back
 
 Arity == [f \in FunNames |->
-            CASE f \in {"abs", "ceil", "floor", "fract", "sign", "sqrt", "not", "sin", "cos", "exp", "log"} -> 1
-              [] f \in {"min", "max", "pow", "eq", "lt", "and", "or"} -> 2
-              [] f \in {"clamp", "mix", "if"} -> 3
-              [] OTHER -> 2]     \* sum, count: variadic, used with 2
+            CASE f \in Fixed1 \cup {"splitw", "trim"} -> 1
+              [] f \in Fixed2 \cup {"split"} -> 2
+              [] f \in Fixed3 -> 3
+              [] OTHER -> -1]     \* variadic
 ArgPool == {Num("2"), Num("0.5"), Neg(Num("3")), Bin("+", Num("1"), Var("a")), Num("30")}
+SmallPool == {Num("2"), Num("0.5"), Neg(Num("3"))}
+VarArgLists == {<<>>} \cup {<<x>> : x \in SmallPool} \cup {<<x, y>> : x \in SmallPool, y \in SmallPool}
+               \cup {<<x, y, z>> : x \in {Num("2"), Num("0"), Num("1")}, y \in SmallPool, z \in {Num("7"), Var("a")}}
+               \cup {<<Num("1"), x, Num("3"), y>> : x \in SmallPool, y \in {Num("2"), Num("0.25")}}
 CallTrees ==
-    UNION {IF Arity[f] = 1 THEN {Call(f, <<x>>) : x \in ArgPool}
-           ELSE IF Arity[f] = 2 THEN {Call(f, <<x, y>>) : x \in ArgPool, y \in ArgPool}
-           ELSE {Call(f, <<x, y, z>>) : x \in {Num("2"), Num("0.5"), Neg(Num("3"))}, y \in {Num("1"), Var("a")}, z \in {Num("3"), Num("0.25")}} :
-           f \in FunNames}
+    UNION {IF Arity[f] = 1 THEN {Call(f, <<x>>) : x \in ArgPool \cup {Num("1"), Num("0.25"), Num("45")}}
+           ELSE IF Arity[f] = 2 THEN {Call(f, <<x, y>>) : x \in ArgPool \cup {Num("7")}, y \in ArgPool}
+           ELSE IF Arity[f] = 3 THEN {Call(f, <<x, y, z>>) : x \in {Num("2"), Num("0.5"), Neg(Num("3"))}, y \in {Num("1"), Var("a")}, z \in {Num("3"), Num("0.25")}}
+           ELSE {Call(f, l) : l \in VarArgLists} :
+           f \in FunNames \ StrFuns}
+\* list-valued results flow into argument lists (flattened) and to the top level
+ListTrees ==
+    {Call("list", <<x, y>>) : x \in SmallPool \cup {Bin("+", Num("1"), Var("a"))}, y \in {Num("7"), Call("max", <<Num("1"), Var("a")>>)}}
+    \cup {Call("list", <<Call("sum", <<Num("1"), Num("2")>>), Num("3"), Neg(Var("a"))>>)}
+    \cup {Call(f, <<Call(g, <<x, y>>), z>>) : f \in {"sum", "head", "count", "max", "product", "tail"},
+                                              g \in {"swap", "divmod", "r2p", "p2r", "tail", "addv", "scalev"},
+                                              x \in {Num("7"), Num("3")}, y \in {Num("2")}, z \in {Num("3")}}
+    \cup {Call("select", <<Num("1"), Call("tail", <<Num("1"), Num("2"), Num("3")>>)>>)}
+    \cup {Call("addv", <<Call("swap", <<Num("1"), Num("2")>>), Call("scalev", <<Num("2"), Num("3"), Var("a")>>)>>)}
+StrTrees ==
+    {Call("split", <<Str("','"), Str("'a,b'")>>), Call("split", <<Str("'.'"), Str("'a.b.c'")>>),
+     Call("splitw", <<Str("'a b  c'")>>), Call("trim", <<Str("'  a '")>>),
+     Call("join", <<Str("'-'"), Str("'a'"), Str("'b'")>>),
+     Call("count", <<Call("split", <<Str("'.'"), Str("'a.b.c'")>>)>>),
+     Call("count", <<Call("splitw", <<Str("'a b  c'")>>)>>),
+     Call("join", <<Str("'-'"), Call("split", <<Str("','"), Str("'a,b'")>>)>>),
+     Call("head", <<Call("splitw", <<Str("'a b  c'")>>)>>),
+     Call("list", <<Str("'a'"), Num("2")>>)}
 NestedCalls == {Bin("+", Call("max", <<Num("1"), Call("abs", <<Neg(Var("a"))>>)>>), Bin("*", Num("2"), Call("min", <<x, Num("3")>>))) : x \in ArgPool}
 
 GoodCases ==
-    {[fam |-> "good", tree |-> t, red |-> r, toks |-> Unparse(t, 1, r)] : t \in D1 \cup D2 \cup CallTrees \cup NestedCalls, r \in BOOLEAN}
+    {[fam |-> "good", tree |-> t, red |-> r, toks |-> Unparse(t, 1, r)] : t \in D1 \cup D2 \cup CallTrees \cup NestedCalls \cup ListTrees \cup StrTrees, r \in BOOLEAN}
 
 \* malformed: derived from good token strings
 Drop(ts, i) == SubSeq(ts, 1, i - 1) \o SubSeq(ts, i + 1, Len(ts))
@@ -148,7 +184,7 @@ BadFromGood(ts) ==
     \cup {[kind |-> "undefined-variable", toks |-> [j \in 1..Len(ts) |-> IF ts[j] = "$a" THEN "$undefinedvar" ELSE ts[j]]] :
               i \in {1} \cap {1 : j \in {k \in 1..Len(ts) : ts[k] = "$a"}}}
 BadArity == {[kind |-> "arity", toks |-> Unparse(Call(f, [i \in 1..n |-> Num("2")]), 1, FALSE)] :
-                f \in {"abs", "sqrt", "pow", "clamp", "mix", "if", "not", "eq", "lt"}, n \in 0..4} \ {x \in {[kind |-> "arity", toks |-> Unparse(Call(f, [i \in 1..Arity[f] |-> Num("2")]), 1, FALSE)] : f \in FunNames} : TRUE}
+                f \in Fixed1 \cup Fixed2 \cup Fixed3, n \in 0..4} \ {x \in {[kind |-> "arity", toks |-> Unparse(Call(f, [i \in 1..Arity[f] |-> Num("2")]), 1, FALSE)] : f \in FunNames} : TRUE}
 BadCases ==
     {[fam |-> "bad", kind |-> b.kind, toks |-> b.toks] :
         b \in UNION {BadFromGood(Unparse(t, 1, FALSE)) : t \in D1 \cup CallTrees \cup NestedCalls}
@@ -161,7 +197,7 @@ RoundTrip == c.fam = "good" => LET r == Parse(c.toks) IN r.ok /\ r.t = c.tree
 \* semantic errors: outside the grammar, the implementation must still reject them)
 NoParse == (c.fam = "bad" /\ c.kind \in {"unbalanced", "dangling-operator"}) => ~Parse(c.toks).ok
 WrongArity == (c.fam = "bad" /\ c.kind = "arity") =>
-                 LET r == Parse(c.toks) IN r.ok => Len(r.t.a) # Arity[r.t.v] \/ r.t.v \in {"sum", "count"}
+                 LET r == Parse(c.toks) IN r.ok => Len(r.t.a) # Arity[r.t.v]
 
 Cases == CASE Family = "good" -> GoodCases [] Family = "bad" -> BadCases [] OTHER -> {}
 Init == c \in Cases
